@@ -194,6 +194,22 @@ mut("C20", "tags-dropped-for-missing-reads", PHASE,
 mut("C20", "literal-plus-strand", PHASE, "                gaf_line.strand,\n", "                \"+\",\n")
 mut("C20", "last-tsv-row-wins", PHASE, "        if line_elements[0] not in phase:\n            tmp", "        if True:\n            tmp")
 
+# command-line wiring (argument parsing / validate / main) -----------------------------------------------
+mut("C04", "cli-node-option-not-appending", VIEW, "arg('-n', '--node', dest='nodes', metavar='NODE', default=[], action='append',",
+    "arg('-n', '--node', dest='nodes', metavar='NODE', default=[], nargs=1,")
+mut("C05", "cli-region-option-keeps-last-only", VIEW, "arg('-r', '--region', dest='regions', metavar='REGION', default=[], action='append',",
+    "arg('-r', '--region', dest='regions', metavar='REGION', default=[], nargs=1,")
+mut("C19", "cli-cigar-flag-ignored", STAT, "        dest=\"cigar_stat\",\n        default=False,\n        action=\"store_true\",",
+    "        dest=\"cigar_stat\",\n        default=False,\n        action=\"store_false\",")
+mut("C09", "cli-bgzip-flag-ignored", SORT, "    arg(\"--bgzip\", action='store_true',", "    arg(\"--bgzip\", action='store_false', default=False,")
+mut("C10", "cli-outind-not-forwarded", SORT, "def main(args):\n    run_sort(**vars(args))", "def main(args):\n    run_sort(args.gfa, args.gaf, outgaf=args.outgaf, bgzip=args.bgzip)")
+mut("C07", "cli-with-sequence-inverted", ORDER, "        \"--with-sequence\",\n        default=False,\n        action=\"store_true\",", "        \"--with-sequence\",\n        default=True,\n        action=\"store_false\",")
+mut("C06", "cli-by-chrom-ignored", ORDER, "def main(args):\n    run_order_gfa(**vars(args))", "def main(args):\n    args.by_chrom = False\n    run_order_gfa(**vars(args))")
+mut("C14", "cli-fasta-flag-ignored", FIND, "        \"--fasta\",\n        action=\"store_true\",", "        \"--fasta\",\n        action=\"store_false\", default=False,")
+mut("C20", "cli-output-option-ignored", PHASE, "def main(args):\n    run(**vars(args))", "def main(args):\n    args.output = sys.stdout\n    run(**vars(args))")
+mut("C11", "cli-cores-capped-at-one", REAL, "def main(args):\n    run_realign(**vars(args))", "def main(args):\n    args.cores = 1\n    run_realign(**vars(args))")
+mut("C09", "debug-logs-to-stdout", "gaftools/__main__.py", "    handler = logging.StreamHandler()", "    handler = logging.StreamHandler(sys.stdout if debug else None)")
+
 
 def run_one(m):
     pid, name, path, old, new, count = m
@@ -244,6 +260,7 @@ def main():
     lines.append("* C13 exit-code-check-dropped / only-first-process-checked: since the `fix:` commit that aborts as soon as one worker has a non-zero exit code, the later all-exited test is a second line of defence; with it weakened the death is still seen by `any_failed` on the next poll.")
     lines.append("* C15 parent-guard-dropped: treating the tree edge back to the parent as a back edge cannot lower low[child] below disc[parent], and blocks are node sets, so vertex-biconnectivity results are unchanged.")
     lines.append("* C07 csv-colour-swapped: scaffold nodes become 'gray' and bubble nodes 'orange' - still one label per role; the statement asks for the role, not for particular colour names (the documentation's figure even uses yellow), so the oracle only requires a consistent two-valued role column.")
+    lines.append("* C11 cli-cores-capped-at-one: with one core the output is by definition the single-core output; C11 does not claim that several cores are actually used.")
     lines.append("* C20 last-tsv-row-wins: repeated TSV rows are identical in the generated domain (conflicting duplicates are undefined by the statement).")
     if not want:
         open(os.path.join(ROOT, "MUTATION_AUDIT.md"), "w").write("\n".join(lines) + "\n")
